@@ -64,7 +64,7 @@ def list_checks(pid, env):
     """Ask a child (with overlay on the path) for the check table of a property."""
     code = ("import json,importlib;m=importlib.import_module('pcdverif.props.%s');"
             "print(json.dumps({'checks':[dict(name=c.name,kind=c.kind,examples=c.examples,shards=c.shards,"
-            "rule=c.rule,exhaustive=bool(c.exhaustive),variant=getattr(c,'variant','plain')) for c in m.CHECKS],"
+            "rule=c.rule,exhaustive=bool(c.exhaustive),variant=c.variant,env=c.env) for c in m.CHECKS],"
             "'meta':getattr(m,'META',{})}))" % pid.lower())
     p = subprocess.run([PYTHON, "-c", code], env=env, stdout=subprocess.PIPE, stderr=subprocess.PIPE)
     if p.returncode != 0:
@@ -91,6 +91,8 @@ def run_worker(args, env, out, timeout):
 
 def write_replay(pid, check, viol):
     d = os.path.join(VERIF, "replays", pid, "found")
+    if os.environ.get("PCDVERIF_NOEVIDENCE"):
+        d = os.path.join("/var/tmp/pcdverif-build", "found-replays", pid)
     os.makedirs(d, exist_ok=True)
     blob = json.dumps(viol["case"], sort_keys=True)
     h = hashlib.sha256((check + blob).encode()).hexdigest()[:10]
@@ -179,6 +181,7 @@ def check_property(pid, tier, seed, only=None):
                     args += ["--replay", rp]
                 v = c.get("variant", "plain")
                 e = child_env(overlays[v], v)
+                e.update(c.get("env") or {})
                 out = os.path.join(tmpdir, "r%d.json" % i)
                 futs[ex.submit(run_worker, args, e, out, timeout)] = (kind, c, s, rp)
             for fu in cf.as_completed(futs):
@@ -271,7 +274,7 @@ def check_property(pid, tier, seed, only=None):
         "wall_s": round(wall, 2),
         "violations": len(uniq),
     }
-    if not only:
+    if not only and not os.environ.get("PCDVERIF_NOEVIDENCE"):
         write_evidence(pid, ev)
     for name, s, err in harness_errors[:5]:
         log("HARNESS ERROR in %s shard %s:\n%s" % (name, s, err))
